@@ -9,8 +9,8 @@ import (
 	"strconv"
 
 	corev1 "k8s.io/api/core/v1"
-	metav1 "k8s.io/apimachinery/pkg/apis/meta/v1"
 	"k8s.io/apimachinery/pkg/api/resource"
+	metav1 "k8s.io/apimachinery/pkg/apis/meta/v1"
 	k8sresource "k8s.io/component-helpers/resource"
 	corev1helpers "k8s.io/component-helpers/scheduling/corev1"
 	"k8s.io/component-helpers/scheduling/corev1/nodeaffinity"
@@ -239,7 +239,6 @@ func Admits(op string, vals []string, value string, present bool) bool {
 	}
 	return false
 }
-
 
 // CollapsedKeys returns the label keys on which the pod's effective constraint — nodeSelector AND the
 // match expressions of the FIRST required node-affinity term (the one Karpenter evaluates) — cannot be
